@@ -22,6 +22,14 @@ META = {
           "width compatibility, canonicity, buffer capacity). The same spaces are driven through the real Compact encoders/decoders (exhaustive u8/u16 "
           "and <=2-byte strings; TLC-generated vectors; random) and every record is validated by TLC.",
           "DESIGN.md §6 C04", "TLA+ spec + exhaustive TLC model checking (8/16 bit) + TLC-generated vectors replayed + TLC trace validation"),
+ "C06": m("MC_Containers explores every history (<= 6 operations) of a ring-buffer deque, an ordered map and an offset bit store and shows the encoding "
+          "is that of the logical content; recorded random histories on the real VecDeque/Vec/LinkedList/BTreeMap/BTreeSet/BinaryHeap/String/BitVec are "
+          "validated by TLC after every operation against Enc(Logical(history)) (logical state recomputed from the logged operations, not from the container).",
+          "DESIGN.md §6 C06", "TLA+ spec + TLC model checking of container histories + TLC trace validation of recorded histories"),
+ "C07": m("For every value the bytes delivered through encode, encode_to (Vec with existing content, direct Output, io::Write with short writes, dyn Output), "
+          "using_encoded and the length from encoded_size are validated by TLC against the same Enc; bulk-path sequences/arrays and their element-wise twin "
+          "types round-trip across the 16 KiB window under the same specification.",
+          "DESIGN.md §6 C07", "TLA+ spec + TLC trace validation of all encoding entry points"),
  "C08": m("Every input is decoded through all back-ends and all wrapper stacks (length <= 3) with non-binding limits; TLC requires each outcome to equal Dec.",
           "DESIGN.md §6 C08", "TLA+ spec + TLC trace validation across input configurations"),
  "C11": m("Depth envelope (MinDepth <= observed <= MaxDepth), balance of descend/ascend, and Limited(L) = (L >= dObs ? Unlimited : err) checked by TLC on "
@@ -30,6 +38,15 @@ META = {
           "DESIGN.md §6 C12", "TLA+ spec + TLC trace validation of memory-limited episodes"),
  "C14": m("PrefixFree invariant model-checked; every cut of recorded encodings must be rejected by the real decoder, and decode_all / decode_all_with_depth_limit "
           "must succeed exactly when Dec consumes everything.", "DESIGN.md §6 C14", "TLA+ spec + TLC model checking + TLC trace validation"),
+ "C13": m("MaxLen/FixedLen of the specification are the reference: TLC requires max_encoded_len() >= MaxLen(layout), ConstEncodedLen => constant, "
+          "encoded_fixed_size() = FixedLen, and every recorded encoding within the declared bound (built-ins and derived types with compact / encoded_as / skip / generics).",
+          "DESIGN.md §6 C13", "TLA+ spec + TLC trace validation of declared lengths"),
+ "C15": m("MC_Append: AppendImpl refines AppendReq over histories of <= 3 appends around every prefix-width boundary and 2^32 (the pre-fix `as u32` variant is kept "
+          "as Mode=legacy and still yields TLC's counterexample); recorded append_or_new histories on the real code (items u8/u32/String/Vec<u8>/Option/derived, "
+          "EncodeLike forms, zero-sized items at 2^14/2^30/2^32) are validated step by step.",
+          "DESIGN.md §6 C15", "TLA+ spec + TLC model checking of append histories + TLC trace validation"),
+ "C16": m("One constructor per declared EncodeLike family (type-checked against the declaration); TLC validates that A's bytes are the encoding of the corresponding "
+          "B value and that B's decoder reads them back.", "DESIGN.md §6 C16", "TLA+ spec + TLC trace validation of EncodeLike pairs"),
  "C18": m("skip must succeed exactly when Dec succeeds and advance exactly as far; DecodeLength::len must equal the specification's count.",
           "DESIGN.md §6 C18", "TLA+ spec + TLC trace validation of skip/len records"),
  "C19": m("Every CountedInput layer in a recorded stack must report exactly the bytes the bottom input delivered, after success and after failure.",
@@ -37,4 +54,4 @@ META = {
 }
 
 PENDING = "check under construction in this session; will be claimed once quiet on the unchanged tree"
-NOT_APPLICABLE = {k: PENDING for k in ["C05","C06","C07","C09","C10","C13","C15","C16","C17","C20"]}
+NOT_APPLICABLE = {k: PENDING for k in ["C05","C09","C10","C17","C20"]}
